@@ -390,13 +390,14 @@ inductive Op where
   | command (p : Nat) (a : Action)
   | insub (p : Nat)
   /-- a message arrived on inbound substream `k` (in one piece or in pieces, however slowly: reads
-  have no timeout); `decodes`: prost accepted it -/
+  have no timeout); `decodes`: prost accepted it (`false` also stands for a length prefix above the
+  codec's limit: the stream fails) -/
   | inmsg (k : Nat) (decodes : Bool)
   /-- only the beginning of a frame arrived on inbound substream `k` -/
   | inhold (k : Nat)
   /-- … and now the rest of it -/
   | inrest (k : Nat) (decodes : Bool)
-  /-- inbound substream `k` ended (clean close, reset, oversized length prefix) -/
+  /-- inbound substream `k` ended (clean close, reset) -/
   | inend (k : Nat)
   deriving Repr
 
